@@ -143,8 +143,26 @@ def r1(proj, rep):
             if isinstance(opv, ast.Name):
                 v, _ = _def(fi.node, opv.id, c)
                 opv = v if v is not None else opv
+            # follow one more local alias (tmp2 = op_conj.reshape(..); op_conj = ...)
+            for _ in range(2):
+                base = opv
+                while isinstance(base, ast.Call) and isinstance(base.func, ast.Attribute) and base.func.attr in ('reshape', 'view'):
+                    base = base.func.value
+                if isinstance(base, ast.Name) and base.id not in fi.params:
+                    v2, _st = _def(fi.node, base.id, c)
+                    if v2 is not None:
+                        opv = v2
+                        continue
+                opv = base if isinstance(base, ast.IfExp) else opv
+                break
             txt = ast.unparse(opv).replace(' ', '')
             is_conj = ('conj' in txt)
+            cond_bad = None
+            if isinstance(opv, ast.IfExp):
+                # a conditional conjugate is only sound when the condition inspects the operator itself
+                tnames = {x.id for x in ast.walk(opv.test) if isinstance(x, ast.Name)}
+                if 'op' not in tnames:
+                    cond_bad = ast.unparse(opv)
             if '?' in ''.join(got):
                 rep.undecided('R1', construct, f'leg lists not in the relabelling idiom: state {got[0]}, operator {got[1]}, output {got[2]}', m, c)
             elif got[1] == 'I+F':
@@ -156,6 +174,9 @@ def r1(proj, rep):
             elif mp != 'chosen->fresh':
                 rep.violation('R1', construct, f'the relabelling map `{out_legs[1]}` is {mp or "not recognised"}: the output must carry the fresh leg at '
                               f'the position of each chosen qubit', m, c)
+            elif want_conj is True and cond_bad:
+                rep.violation('R1', construct, f'the right application conjugates the operator only under a condition that does not inspect the '
+                              f'operator: `{cond_bad}` - for a complex gate on the other branch the routine returns U rho U^T', m, c)
             elif want_conj is True and not is_conj:
                 rep.violation('R1', construct, 'the right application contracts the un-conjugated operator with the column legs: the routine returns '
                               'U rho U^T instead of U rho U^dagger (invisible for real gates)', m, c)
@@ -207,5 +228,40 @@ def r1(proj, rep):
             rep.ok('R1', q, 'rho legs (row: Q | col: chosen->fresh), op legs (fresh, chosen): Tr(rho O)', m, c)
         else:
             rep.undecided('R1', q, f'leg lists rho {_shape(dm_legs)}, op {_shape(op_legs)} not recognised', m, c)
+    # control-subspace target relabelling: position of each target among the non-control qubits
+    q = 'numqi.sim.state._control_n_index'
+    fi = proj.func(q)
+    m = fi.module
+    n += 1
+    src = ast.unparse(fi.node).replace(' ', '')
+    lst = [s2 for s2 in ast.walk(fi.node) if isinstance(s2, ast.Assign) and isinstance(s2.value, ast.ListComp) and s2.value.generators[0].ifs]
+    mp = [s2 for s2 in ast.walk(fi.node) if isinstance(s2, ast.Assign) and isinstance(s2.value, ast.DictComp)]
+    new = [s2 for s2 in ast.walk(fi.node) if isinstance(s2, ast.Assign) and isinstance(s2.value, ast.ListComp) and isinstance(s2.value.elt, ast.Subscript)]
+    ok_idiom = False
+    if lst and mp and new:
+        a = lst[0]
+        gen = a.value.generators[0]
+        keep_non_control = 'notin' in ast.unparse(gen.ifs[0]).replace(' ', '') and ast.unparse(gen.iter).replace(' ', '').startswith('range(')
+        d = mp[0].value
+        inv = ast.unparse(d.generators[0].iter).replace(' ', '') == f'enumerate({a.targets[0].id})' and isinstance(d.generators[0].target, ast.Tuple) \
+            and ast.unparse(d.key) == d.generators[0].target.elts[1].id and ast.unparse(d.value) == d.generators[0].target.elts[0].id
+        look = isinstance(new[0].value.elt.value, ast.Name) and new[0].value.elt.value.id == mp[0].targets[0].id
+        ok_idiom = keep_non_control and inv and look
+    if ok_idiom:
+        rep.ok('R1', q, 'targets are relabelled by their position among the non-control qubits (inverse of the kept-qubit list)', m, new[0])
+    else:
+        n -= 1      # the recognised idiom is gone: the floor turns this into an analysis error unless a certain violation is found
+        # a uniform offset (the same number subtracted from every target) is certainly wrong: a control lying BETWEEN two targets shifts only the later one
+        for s2 in ast.walk(fi.node):
+            if isinstance(s2, ast.Assign) and isinstance(s2.value, ast.ListComp) and isinstance(s2.value.elt, ast.BinOp) and isinstance(s2.value.elt.op, ast.Sub):
+                gen = s2.value.generators[0]
+                if ast.unparse(gen.iter) == 'ind_target' and isinstance(gen.target, ast.Name):
+                    off = s2.value.elt.right
+                    if gen.target.id not in {x.id for x in ast.walk(off) if isinstance(x, ast.Name)}:
+                        rep.violation('R1', q, f'`{ast.unparse(s2)}` subtracts the same offset `{ast.unparse(off)}` from every target: with a control qubit '
+                                      f'between two targets (e.g. target (0,2), control 1) the later target keeps a wrong position in the control subspace', m, s2)
+                        n += 1
+        rep.undecided('R1', q, 'target relabelling is not the recognised idiom (list of non-control qubits -> inverse map -> lookup)', m, fi.node,
+                      text='control target relabelling')
     rep.count('R1.contractions', n)
     return n
